@@ -1235,7 +1235,7 @@ ASSUMPTIONS = [
     "managers are modelled per store as they are (world model): the dataset and its named graphs share one, "
     "ConjunctiveGraph.default_context and a user's second Graph have their own; a manager comes into being at the first "
     "touch of .namespace_manager, which the harness makes an explicit step",
-    "the while-loops that search a free numbered prefix / a free p-prefix are bounded by |bindings|+1 iterations",
+    "the serialiser's p-prefix loop is bounded by |table|+1 iterations (the two numbered-prefix loops are proved to end)",
     "the serialiser's preprocess sees the triples in the order Graph.triples((None, None, None)) yields them (read from the "
     "graph when the case is generated; PYTHONHASHSEED=0); the statements of the body are not modelled, only the names they use are checked",
 ]
